@@ -44,7 +44,8 @@ def cases(tier, seed):
         yield {"mode": "diff", "i": i}
     for i in range(n["kill"]):
         for k in range(0, 7 if tier == "quick" else 12):
-            yield {"mode": "kill", "i": i, "k": k}
+            # abnormal death comes in several flavours: SIGKILL, a plain SIGTERM (kill <pid>, a scheduler stopping the job), SIGABRT (crash)
+            yield {"mode": "kill", "i": i, "k": k, "signal": ["SIGKILL", "SIGTERM", "SIGABRT"][(k + i) % 3]}
     for i in range(n["exc"]):
         for k in range(0, 3 if tier == "quick" else 6):
             yield {"mode": "exc", "i": i, "k": k}
@@ -117,6 +118,7 @@ class Pipes:
         self.writes = 0
         self.rounds_after_death = 0
         self.kill_after = None
+        self.kill_signal = signal.SIGKILL
         self.killed = None
         self.dead = False
 
@@ -140,7 +142,7 @@ class Pipes:
                 me.writes += 1
                 if me.kill_after is not None and me.writes == me.kill_after + 1 and me.killed is None:
                     for pid in _children():
-                        os.kill(pid, signal.SIGKILL)
+                        os.kill(pid, me.kill_signal)
                         me.killed = pid
                     # wait until the kernel reports the death (zombie or gone)
                     t0 = time.time()
@@ -287,6 +289,7 @@ def run_case(case, obs):
     if mode == "kill":
         pipes = Pipes()
         pipes.kill_after = case["k"]
+        pipes.kill_signal = getattr(signal, case.get("signal", "SIGKILL"))
         pipes.install()
         try:
             b = run_trace(spec, True)
@@ -301,12 +304,13 @@ def run_case(case, obs):
         obs.count("kill_runs")
         obs.nontrivial(case)
         if b["exc"] is None and b["code"] == int(X.OPTIMIZER_STEP_FINISHED):
-            obs.violation("killed_optimizer_process_reported_as_normal_completion", killed_after_messages=case["k"], exit_code=b["code"], **tag)
+            obs.violation("killed_optimizer_process_reported_as_normal_completion", killed_after_messages=case["k"], signal=case.get("signal"), exit_code=b["code"], **tag)
             return
         if pipes.rounds_after_death > MAX_ROUNDS_AFTER_DEATH:
             obs.violation("parent_keeps_polling_after_child_death", rounds=pipes.rounds_after_death, **tag)
             return
-        obs.sample({"killed_after_messages": case["k"], "outcome": repr(b["exc"]) if b["exc"] else b["code"], "rounds_after_death": pipes.rounds_after_death})
+        obs.feature("kill." + case.get("signal", "SIGKILL"))
+        obs.sample({"killed_after_messages": case["k"], "signal": case.get("signal"), "outcome": repr(b["exc"]) if b["exc"] else b["code"], "rounds_after_death": pipes.rounds_after_death})
         return
     # evaluator raises at evaluation k
     class UserError(RuntimeError):
